@@ -117,6 +117,8 @@ func runC08(c *Ctx) {
 	c15SingleValue(c, "C08")
 	c15Unconditional(c, "C08")
 	c15SortedFlag(c, "C08")
+	c15DelOne(c, "C08.del-one")
+	c15FailOnlyOnDel(c, "C08.fail-only-on-del")
 }
 
 func runC15(c *Ctx) {
@@ -127,6 +129,9 @@ func runC15(c *Ctx) {
 	c15SingleValue(c, "C15")
 	c15Unconditional(c, "C15")
 	c15SortedFlag(c, "C15")
+	c15DelOne(c, "C15.del-one")
+	c15RestoreLatest(c)
+	c15FailOnlyOnDel(c, "C15.fail-only-on-del")
 	// executing a batch is one atomic step that fails without effect
 	c.importRules(runC08, "C08", map[string]string{"atomic": "atomic"})
 }
@@ -1214,6 +1219,19 @@ func c15Codec(c *Ctx) {
 	n32 := 0
 	var wrong []string
 	fns := [][2]string{{"dnsdata/rdb", "appendValues"}, {"dnsdata/rdb", "delValue"}, {"dnsdata/rdb", "ReadNextChunk"}, {"dnsdata/rdb", "(*RDB).FindFirst"}}
+	// a codec function may leave the header arithmetic to another codec function (delValue walking with ReadNextChunk)
+	delegates := func(fn *ssa.Function) bool {
+		for _, ci := range callInstrs(fn) {
+			if sf := ci.Common().StaticCallee(); sf != nil && sf != fn {
+				for _, t := range fns {
+					if sf == c.FuncOpt(t[0], t[1]) {
+						return true
+					}
+				}
+			}
+		}
+		return false
+	}
 	for _, t := range fns {
 		fn := c.Func(t[0], t[1])
 		c.Examined(fn)
@@ -1247,11 +1265,11 @@ func c15Codec(c *Ctx) {
 				wrong = append(wrong, fmt.Sprintf("%s uses %s: not a 32-bit length", fnName(fn), f.Name()))
 			}
 		}
-		if uses == 0 {
-			wrong = append(wrong, fnName(fn)+" does not use encoding/binary")
+		if uses == 0 && !delegates(fn) {
+			wrong = append(wrong, fnName(fn)+" neither uses encoding/binary nor goes through another function of the codec")
 		}
 	}
-	c.Check(rule, "value-list|little-endian-uint32-everywhere", len(wrong) == 0 && n32 >= 4, token.NoPos, fmt.Sprintf("%d length reads/writes; deviations: %v", n32, wrong))
+	c.Check(rule, "value-list|little-endian-uint32-everywhere", len(wrong) == 0 && n32 >= 3, token.NoPos, fmt.Sprintf("%d length reads/writes; deviations: %v", n32, wrong))
 	// header width constants
 	check4 := func(fn *ssa.Function, what string) {
 		c.Examined(fn)
@@ -1285,7 +1303,7 @@ func c15Codec(c *Ctx) {
 				}
 			}
 		}
-		ok := len(consts) > 0
+		ok := len(consts) > 0 || delegates(fn)
 		for _, k := range consts {
 			if k != 4 {
 				ok = false
